@@ -38,6 +38,9 @@ structure MDl where
   loc : Loc
   owner : Nat           -- the lookup task that issued the request
   epoch : Nat           -- how often `loc` had been uncached when the request was issued
+  minEpoch : Nat        -- the oldest uncache-epoch this download may have been CAUSED in: the smallest creation
+                        -- epoch among the lookups of `loc` unfinished when the request was issued (what causes a
+                        -- download — installing a marker, spawning a task — is not observable, only the request is)
   outcome : Option Out  -- `some v` once the response was released
 deriving DecidableEq, Repr
 
@@ -72,6 +75,10 @@ namespace Mon
 
 def epochOf (m : Mon) (loc : Loc) : Nat := m.uncaches.count loc
 
+/-- smallest creation epoch among the unfinished lookups of `loc` (the current epoch if there is none) -/
+def minEpochOf (m : Mon) (loc : Loc) : Nat :=
+  (m.tasks.filter fun k => k.loc == loc && k.status == .pending).foldl (fun a k => min a k.startEpoch) (m.epochOf loc)
+
 def setStatus (m : Mon) (t : Nat) (s : Status) : Mon :=
   { m with tasks := m.tasks.modify t fun k => { k with status := s } }
 
@@ -88,21 +95,26 @@ def applyOp (m : Mon) : Op → Mon
   | .step => m
 
 def applyEv (m : Mon) : Ev → Mon
-  | .requested t loc => { m with dls := m.dls ++ [{ loc := loc, owner := t, epoch := m.epochOf loc, outcome := none }] }
+  | .requested t loc =>
+      { m with dls := m.dls ++ [{ loc := loc, owner := t, epoch := m.epochOf loc, minEpoch := m.minEpochOf loc, outcome := none }] }
   | .returned t v => m.setStatus t (.returned v)
   | .cancelled t => m.setStatus t .cancelled
   | .raised t => m.setStatus t .raised
 
-/-- **single flight**: a request for `loc` is acceptable only if every earlier download of `loc`
-    requested since `loc` was last uncached was abandoned: its lookup ended cancelled.
+/-- **single flight**: a request for `loc` is acceptable only if every earlier download of `loc` that
+    certainly belongs to the current uncache-epoch (requested since the last uncache AND not possibly caused
+    before it: `minEpoch = epoch`) was abandoned: the lookup that issued it ended cancelled.
     (Covers "one download for concurrent lookups" and "a failed download is remembered, not
-    retried on every lookup".) -/
+    retried on every lookup".)  The text does not say WHO issues the download: if the request comes from
+    a lookup task it must be an unfinished lookup of that location; a request issued from elsewhere (e.g.
+    a download task of its own — `t` is then no lookup) is judged by location only, and such a download
+    is never "abandoned" by a lookup's cancellation. -/
 def okRequest (m : Mon) (t : Nat) (loc : Loc) : Bool :=
   (match m.tasks[t]? with
    | some k => k.loc == loc && k.status == .pending
-   | none => false)
+   | none => true)
   && m.dls.all fun d =>
-      !(d.loc == loc && d.epoch == m.epochOf loc) || m.statusOf d.owner == some .cancelled
+      !(d.loc == loc && d.epoch == m.epochOf loc && d.minEpoch == d.epoch) || m.statusOf d.owner == some .cancelled
 
 /-- **shared outcome**: a lookup may only return the released outcome of a download of its
     location that was requested after the lookup was created, or in the same uncache-epoch in which
